@@ -225,13 +225,171 @@ def boundary_case(kind="distance", op="eq", tol=500):
             "params": {"sigma-apr": 10, "conf-pr": 0.95, "tol-abs": tol, "sigma-act": "apriori"}}
 
 
+def is_special(p):
+    return "sxy" in p or "sz" in p
+
+
+def pstate(p):
+    """what the parser + revision_points make of a point: coordinates known per group, group takes part,
+    group had a status in the input"""
+    if is_special(p):
+        kxy, kz, sxy, sz = bool(p.get("kxy")), bool(p.get("kz")), p.get("sxy"), p.get("sz")
+    else:
+        st = p["status"]
+        known = p.get("approx", True) or st == "fix"
+        kxy, kz = ("x" in p) and known, ("z" in p) and known
+        s = None if st == "none" else st
+        sxy, sz = (s if "x" in p else None), (s if "z" in p else None)
+    return {"kxy": kxy, "kz": kz, "axy": sxy is not None and kxy, "az": sz is not None and kz,
+            "had_xy": sxy is not None, "had_z": sz is not None}
+
+
+def special_point_xml(pid, p, nd):
+    a = f'<point id="{gen_net.xml_escape_attr(pid)}"'
+    if p.get("kxy"):
+        a += f' x="{gen_net.fmt(p["x"], nd)}" y="{gen_net.fmt(p["y"], nd)}"'
+    if p.get("kz"):
+        a += f' z="{gen_net.fmt(p["z"], nd)}"'
+    for word in ("fix", "adj"):
+        g = ("xy" if p.get("sxy") == word else "") + ("z" if p.get("sz") == word else "")
+        if g:
+            a += f' {word}="{g}"'
+    return a + " />"
+
+
 def to_gkf(net, algorithm=None, nd=12):
     n = copy.deepcopy(net)
     for o in n["obs"]:
         if o["kind"] == "obs":
             for it in o["items"]:
                 it.pop("blunder", None)
-    return gen_net.to_gkf(n, nd=nd, algorithm=algorithm)
+    special = {pid: p for pid, p in n["points"].items() if is_special(p)}
+    n["points"] = {pid: p for pid, p in n["points"].items() if pid not in special}
+    txt = gen_net.to_gkf(n, nd=nd, algorithm=algorithm)
+    if special:
+        lines = "\n".join(special_point_xml(pid, p, nd) for pid, p in special.items())
+        txt = txt.replace("<points-observations>\n", "<points-observations>\n" + lines + "\n", 1)
+    return txt
+
+
+# ---- requirement matrix: one small network per (type, role, requirement) in which only that requirement decides
+
+GEOM = {"direction": [("from", "xy"), ("to", "xy")], "distance": [("from", "xy"), ("to", "xy")],
+        "azimuth": [("from", "xy"), ("to", "xy")], "angle": [("from", "xy"), ("bs", "xy"), ("fs", "xy")],
+        "s-distance": [("from", "xy"), ("from", "z"), ("to", "xy"), ("to", "z")],
+        "z-angle": [("from", "xy"), ("from", "z"), ("to", "xy"), ("to", "z")],
+        "dh": [("from", "z"), ("to", "z")],
+        "xdiff": [("from", "xy"), ("to", "xy")], "ydiff": [("from", "xy"), ("to", "xy")], "zdiff": [("from", "z"), ("to", "z")],
+        "x": [("id", "xy")], "y": [("id", "xy")], "z": [("id", "z")]}
+MEMBER = dict(GEOM)
+MEMBER["z-angle"] = [("from", "z"), ("to", "z")]
+
+
+def base_net(dim):
+    P = {"A": {"x": 0.0, "y": 0.0}, "B": {"x": 1000.0, "y": 0.0}, "C": {"x": 0.0, "y": 1000.0}, "P": {"x": 400.0, "y": 500.0}}
+    for k, (pid, p) in enumerate(P.items()):
+        p["status"] = "adj" if pid == "P" else "fix"
+        p["approx"] = True
+        if dim == 3:
+            p["z"] = 10.0 + 7.0 * k
+    items = []
+    for t in "ABC":
+        items.append({"t": "direction", "to": t, "val": (gen_net.bearing(P["P"], P[t]) * GON) % 400.0, "stdev": 10})
+        items.append({"t": "distance", "to": t, "val": gen_net.dist2(P["P"], P[t]), "stdev": 5})
+    obs = [{"kind": "obs", "from": "P", "orient": 0.0, "items": items}]
+    if dim == 3:
+        obs.append({"kind": "hdiffs", "items": [{"from": t, "to": "P", "val": P["P"]["z"] - P[t]["z"], "stdev": 1.0} for t in "AB"]})
+    return {"dim": dim, "points": P, "obs": obs, "defects": [], "blunders": [],
+            "params": {"sigma-apr": 10, "conf-pr": 0.95, "tol-abs": 1000, "sigma-act": "apriori"}}
+
+
+def obs_item(net, t, frm, to, fs=None):
+    P = net["points"]
+    a, b = P[frm], P[to]
+    if t == "direction" or t == "azimuth":
+        return {"t": t, "to": to, "val": (gen_net.bearing(a, b) * GON) % 400.0, "stdev": 10}
+    if t == "distance":
+        return {"t": t, "to": to, "val": gen_net.dist2(a, b), "stdev": 5}
+    if t == "angle":
+        c = P[fs]
+        return {"t": t, "bs": to, "fs": fs, "val": ((gen_net.bearing(a, c) - gen_net.bearing(a, b)) * GON) % 400.0, "stdev": 10}
+    if t == "s-distance":
+        return {"t": t, "to": to, "val": gen_net.dist3(a, b), "stdev": 5}
+    if t == "z-angle":
+        d = gen_net.dist3(a, b)
+        return {"t": t, "to": to, "val": math.acos((b["z"] - a["z"]) / d) * GON if d > 0 else 100.0, "stdev": 10}
+    raise ValueError(t)
+
+
+def matrix_cases():
+    """[(net, (type, role, requirement))]: the point U has coordinates in the decisive group but that group does not
+    take part (requirement `active_g`), or, for the zenith angle, takes part with its height but has no xy (`known_xy`)"""
+    out = []
+    U_XY = {"x": 700.0, "y": 600.0, "sxy": None, "sz": None, "kxy": True, "kz": False}                    # 2D, xy known, unused
+    U3_XY = {"x": 700.0, "y": 600.0, "z": 25.0, "sxy": None, "sz": "fix", "kxy": True, "kz": True}         # xy known, unused; z fixed
+    U3_Z = {"x": 700.0, "y": 600.0, "z": 25.0, "sxy": "fix", "sz": None, "kxy": True, "kz": True}          # z known, unused; xy fixed
+    U3_NOXY = {"x": 0.0, "y": 0.0, "z": 25.0, "sxy": None, "sz": "fix", "kxy": False, "kz": True}          # no xy at all; z fixed
+
+    def add(dim, t, role, req, U, build):
+        net = base_net(dim)
+        net["points"]["U"] = dict(U)
+        build(net)
+        net["defects"] = [("matrix", t, role, req)]
+        net["matrix"] = [t, role, req]
+        out.append(net)
+
+    def station(t, role):
+        def b(net):
+            if role == "from":
+                its = [obs_item(net, t, "U", "A", "B")] if t == "angle" else [obs_item(net, t, "U", "A")]
+                if t == "direction":
+                    its.append(obs_item(net, t, "U", "B"))
+                net["obs"].append({"kind": "obs", "from": "U", "orient": 0.0, "items": its})
+            else:
+                if t == "angle":
+                    its = [obs_item(net, t, "A", "U", "B") if role == "bs" else obs_item(net, t, "A", "B", "U")]
+                else:
+                    its = [obs_item(net, t, "A", "U")]
+                if t == "direction":
+                    its = [obs_item(net, t, "A", "B"), obs_item(net, t, "A", "C")] + its
+                net["obs"].append({"kind": "obs", "from": "A", "orient": 0.0, "items": its})
+        return b
+
+    for t in ("direction", "distance", "azimuth"):
+        for role in ("from", "to"):
+            add(2, t, role, "active_xy", U_XY, station(t, role))
+    for role in ("from", "bs", "fs"):
+        add(2, "angle", role, "active_xy", U_XY, station("angle", role))
+    for role in ("from", "to"):
+        add(3, "s-distance", role, "active_xy", U3_XY, station("s-distance", role))
+        add(3, "s-distance", role, "active_z", U3_Z, station("s-distance", role))
+        add(3, "z-angle", role, "active_z", U3_Z, station("z-angle", role))
+
+        def zang_noxy(net, role=role):
+            it = {"t": "z-angle", "to": "A" if role == "from" else "U", "val": 99.0, "stdev": 10}
+            net["obs"].append({"kind": "obs", "from": "U" if role == "from" else "A", "orient": 0.0, "items": [it]})
+        add(3, "z-angle", role, "known_xy", U3_NOXY, zang_noxy)
+
+        def dh(net, role=role):
+            f, t_ = ("U", "A") if role == "from" else ("A", "U")
+            net["obs"].append({"kind": "hdiffs", "items": [{"from": f, "to": t_, "val": net["points"][t_]["z"] - net["points"][f]["z"], "stdev": 1.0}]})
+        add(3, "dh", role, "active_z", U3_Z, dh)
+
+        def vec(net, role=role):
+            f, t_ = ("U", "A") if role == "from" else ("A", "U")
+            a, b = net["points"][f], net["points"][t_]
+            net["obs"].append({"kind": "vectors", "cov": None,
+                               "items": [{"from": f, "to": t_, "dx": b["x"] - a["x"], "dy": b["y"] - a["y"], "dz": b["z"] - a["z"]}]})
+        add(3, "xdiff+ydiff", role, "active_xy", U3_XY, vec)
+        add(3, "zdiff", role, "active_z", U3_Z, vec)
+
+    def coords(net):
+        u = net["points"]["U"]
+        net["obs"].append({"kind": "coords", "items": [{"id": "U", "x": u["x"], "y": u["y"], "z": u["z"]}],
+                           "cov": [[1.0 if i == j else 0.0 for j in range(3)] for i in range(3)], "band": 0})
+    add(3, "x+y", "id", "active_xy", U3_XY, coords)
+    add(3, "z", "id", "active_z", U3_Z, coords)
+    return out
 
 
 def delete_items(net, keep_obs, point_groups):
@@ -246,6 +404,14 @@ def delete_items(net, keep_obs, point_groups):
             continue
         axy, az = point_groups[pid]
         q = dict(p)
+        if is_special(p):
+            if not axy:
+                q["sxy"] = None
+            if not az:
+                q["sz"] = None
+            if axy or az:
+                pts[pid] = q
+            continue
         if not axy:
             q.pop("x", None)
             q.pop("y", None)
@@ -281,6 +447,20 @@ def delete_items(net, keep_obs, point_groups):
                 raise ValueError("partially excluded vector")
             o["items"] = [it for it, k in zip(o["items"], keepv) if k]
             if o["items"]:
+                obs.append(o)
+        elif o["kind"] == "coords":
+            flags = keep_obs[ci]
+            ci += 1
+            k, items = 0, []
+            for it in o["items"]:
+                n_ = sum(1 for c in ("x", "y", "z") if c in it)
+                if all(flags[k:k + n_]):
+                    items.append(it)
+                elif any(flags[k:k + n_]):
+                    raise ValueError("partially excluded coordinate observation")
+                k += n_
+            o["items"] = items
+            if items:
                 obs.append(o)
         else:
             raise ValueError("cluster kind not supported by delete_items: " + o["kind"])
